@@ -67,6 +67,56 @@ func c14Complete(d *vc.C14) {
 	d.ReadAll()
 }
 
+// c14CaseMulti: the same random schedules with K = 2 or 3 tracts per piece (the round packs towards K * padToLength),
+// so that PackTracts copies several tracts into one piece and a tract can be the first, a middle or the last one of
+// its piece.  The model's round layer covers one tract per piece only: these cases write no trace, they are judged by
+// the model-free monitors (content of the encoded copy at commit, reads through the RS pointer, bump/commit/term monitors).
+func c14CaseMulti(root *vw.Rng, ci int) {
+	id := fmt.Sprintf("m%d", ci)
+	r := root.Fork(uint64(70000 + ci))
+	k := r.PickInt(2, 2, 3)
+	repl := r.PickInt(1, 2, 2, 3, 3)
+	d := vc.NewC14(r, r.PickInt(9, 9, 10), r.Chance(1, 2), id)
+	defer d.Cl.Close()
+	d.SetPieceTracts(k)
+	shapes := map[int][][]int{2: {{12}, {6, 6}, {4, 4, 4}, {7, 6}, {13}}, 3: {{18}, {9, 9}, {6, 6, 6}, {10, 9}}}[k]
+	shape := shapes[r.Intn(len(shapes))]
+	for _, nt := range shape {
+		lens := make([]int, nt)
+		for i := range lens {
+			lens[i] = r.Range(1, 300)
+		}
+		d.NewBlob(repl, nt, true, lens)
+	}
+	w := vc.C14DefaultWeights()
+	w.PPackFail = r.PickInt(150, 250, 350)
+	w.Write = r.PickInt(0, 2, 8) // the pack-step faults matter with and without racing writes
+	if r.Chance(1, 2) {
+		w.PLose, w.PFail, w.PTwice = 0, 0, 0
+	}
+	if r.Chance(2, 3) {
+		w.Restart, w.Leader = 0, 0
+	}
+	w.Round, w.MaxRounds = 12, 8
+	d.RunRandom(w, vw.Scale(r.Range(90, 200), r.Range(150, 500)))
+	c14Complete(d)
+	seen := map[string]bool{}
+	for _, b := range d.Bads {
+		if seen[b.Sig] {
+			continue
+		}
+		seen[b.Sig] = true
+		vw.Report(vw.Violation{Property: "C14", Signature: "multi-tract-piece/" + b.Sig, What: b.What, Case: id, Detail: b.Detail})
+	}
+	vw.Stat("multi.cases", 1)
+	vw.Stat(fmt.Sprintf("multi.k=%d", k), 1)
+	for key, v := range d.Stats {
+		if strings.HasPrefix(key, "packfail.") || key == "commit.applied" || key == "class-switched" {
+			vw.Stat("multi."+key, int64(v))
+		}
+	}
+}
+
 func c14Case(root *vw.Rng, ci int, tr *vw.Trace) {
 	id := fmt.Sprint(ci)
 	r := root.Fork(uint64(ci))
@@ -237,6 +287,9 @@ func TestVerifC14(t *testing.T) {
 				continue
 			}
 			c14Case(root, ci, tr)
+			if ci%6 == 0 && vw.CaseSelected(fmt.Sprintf("m%d", ci)) {
+				c14CaseMulti(root, ci)
+			}
 		}
 		return
 	}
@@ -259,14 +312,16 @@ func TestVerifC14(t *testing.T) {
 		return
 	}
 	for ci := 0; ci < n; ci++ {
-		if !vw.CaseSelected(fmt.Sprint(ci)) {
-			continue
-		}
 		if time.Now().After(deadline) {
 			vw.Stat("budget.cases-skipped", 1)
 			continue
 		}
-		c14Case(root, ci, tr)
+		if vw.CaseSelected(fmt.Sprint(ci)) {
+			c14Case(root, ci, tr)
+		}
+		if ci%6 == 0 && vw.CaseSelected(fmt.Sprintf("m%d", ci)) {
+			c14CaseMulti(root, ci)
+		}
 	}
 }
 
